@@ -1,6 +1,7 @@
 pub mod common;
 pub mod c01;
 pub mod c02;
+pub mod c03;
 pub mod c04;
 pub mod c05;
 pub mod c07;
@@ -8,6 +9,8 @@ pub mod c08;
 pub mod c09;
 pub mod c13;
 pub mod c14;
+pub mod c15;
+pub mod c17;
 pub mod c20;
 
 use crate::runner::PropertyDef;
@@ -16,6 +19,7 @@ pub fn lookup(id: &str) -> Option<PropertyDef> {
 	Some(match id {
 		"C01" => c01::def(),
 		"C02" => c02::def(),
+		"C03" => c03::def(),
 		"C04" => c04::def(),
 		"C05" => c05::def(),
 		"C07" => c07::def(),
@@ -23,9 +27,11 @@ pub fn lookup(id: &str) -> Option<PropertyDef> {
 		"C09" => c09::def(),
 		"C13" => c13::def(),
 		"C14" => c14::def(),
+		"C15" => c15::def(),
+		"C17" => c17::def(),
 		"C20" => c20::def(),
 		_ => return None,
 	})
 }
 
-pub const ALL: &[&str] = &["C01", "C02", "C04", "C05", "C07", "C08", "C09", "C13", "C14", "C20"];
+pub const ALL: &[&str] = &["C01", "C02", "C03", "C04", "C05", "C07", "C08", "C09", "C13", "C14", "C15", "C17", "C20"];
